@@ -41,6 +41,12 @@ CHECKS = {
     'C04': ('two-run symbolic execution of the real rate() in one path (original vs permuted presentation) + z3 equality of the posterior terms; sat models replayed on float code',
             'For the listed shapes, every weak order and every admissible permutation of teams (all n! for n <= 3; 4 teams in thorough) and player reversal: every player gets the identical real-valued posterior in both presentations, for all mu, sigma, beta, tau, kappa.',
             TRUST, '6/C04'),
+    'C18': ('symbolic execution of the real comparison dunders / ordinal() on exact binary64 proxies (z3 QF_FP, RNE) + per-path equivalence with the ordinal specification; foreign operands via lazy kind proxy; sorted() paths',
+            'For each of the five rating classes and each of < <= > >= == != over ALL finite doubles mu, sigma: result <=> the corresponding comparison of mu-3*sigma (== : both fields equal); ordinal(z) = mu - z*sigma for symbolic z; foreign operands refused with ValueError / unequal; sorted() of 3 (4) ratings is ordinal-monotone on every path.',
+            'Trusted: z3 FloatingPoint theory as IEEE-754 binary64 = CPython float. No real-number abstraction here.', '6/C18'),
+    'C20': ('symbolic execution of the real constructors: symbolic values incl. 0/negatives with enumerated None-patterns, lazy kind proxies for create_rating arguments, uuid stub, two-run syntactic identity for restore',
+            'rating()/create_rating() store exactly the passed terms (defaults only for None), one fresh id per object; deepcopy keeps mu, sigma, name, id in distinct objects; after a symbolic game, rate() and the three predictions on ratings rebuilt from (mu, sigma) are syntactically identical terms to those on the original objects.',
+            TRUST, '6/C20'),
     'C07': ('bounded symbolic execution of the real rate() (sx engine) + z3 QF_NRA per path; sat models replayed on float code',
             'For every model, the listed team shapes and every weak order, z3 shows on every path of the real rate() that the '
             'precision-weighted mu change cannot differ from zero (TM: cannot exceed the tied-pair margin) for any mu, sigma, beta, tau, kappa in the domain.',
